@@ -1,5 +1,147 @@
-// placeholder: sequential writers under the scheduler (filled in below)
+// Scenario driver for `SequentialWriterBuilder` / `SequentialWriter` (leaf module of the generated
+// copy) under verif_rt: n writers over one `BufWriter(1024)`, each used by its own thread
+// (writes of various sizes, flushes, sleeps) and then dropped; some are dropped untouched.
 use super::*;
-pub fn run(id: usize, _rng: &mut Rng) -> String {
-    format!("seq id={}", id)
+use sequential::SequentialWriterBuilder;
+use std::io::Write as _;
+use verif_harness::hex;
+
+#[derive(Clone, Debug)]
+enum SOp {
+    W(Vec<u8>),
+    F,
+    Sleep(u64),
+}
+
+struct LogWriter(Arc<StdMutex<Vec<u8>>>);
+
+impl std::io::Write for LogWriter {
+    fn write(&mut self, buf: &[u8]) -> std::io::Result<usize> {
+        sched::log(&format!("sockwrite {}", buf.len()));
+        self.0.lock().unwrap().extend_from_slice(buf);
+        Ok(buf.len())
+    }
+    fn flush(&mut self) -> std::io::Result<()> {
+        Ok(())
+    }
+}
+
+pub fn run(id: usize, rng: &mut Rng) -> String {
+    let n = rng.range(2, 5);
+    let mut progs: Vec<Vec<SOp>> = vec![];
+    for i in 0..n {
+        let mut ops = vec![];
+        let k = *rng.pick(&[0usize, 0, 1, 2, 3, 4]);
+        for j in 0..k {
+            match rng.below(6) {
+                0 => ops.push(SOp::F),
+                1 => ops.push(SOp::Sleep(*rng.pick(&[1u64, 50, 1000]))),
+                _ => {
+                    let len = *rng.pick(&[1usize, 5, 100, 1023, 1024, 1025, 3000]);
+                    ops.push(SOp::W((0..len).map(|x| b'a' + ((i * 7 + j + x) % 26) as u8).collect()));
+                }
+            }
+        }
+        if rng.chance(1, 2) {
+            ops.push(SOp::F);
+        }
+        progs.push(ops);
+    }
+    let cfg = Config { seed: rng.next(), p_timer: *rng.pick(&[0u64, 50]), p_stay: *rng.pick(&[0u64, 500]), ..Config::default() };
+    let p2 = progs.clone();
+    let ((sock, quiet), rep) = sched::run(&cfg, move || {
+        let sink = Arc::new(StdMutex::new(Vec::new()));
+        let mut builder = SequentialWriterBuilder::new(std::io::BufWriter::with_capacity(1024, LogWriter(sink.clone())));
+        let mut writers = vec![];
+        for _ in 0..p2.len() {
+            sched::log("issue");
+            writers.push(builder.next().unwrap());
+        }
+        drop(builder);
+        for (i, (mut w, ops)) in writers.into_iter().zip(p2.into_iter()).enumerate() {
+            let sink2 = sink.clone();
+            verif_rt::thread::spawn_named(&format!("writer{}", i), move || {
+                for op in ops {
+                    match op {
+                        SOp::W(b) => {
+                            sched::log(&format!("beginW {} {}", i, hex(&b)));
+                            let _ = w.write_all(&b);
+                        }
+                        SOp::F => {
+                            sched::log(&format!("beginF {}", i));
+                            let _ = w.flush();
+                            // what is on the socket right after the flush returned
+                            sched::log(&format!("flushed {} {}", i, sink2.lock().unwrap().len()));
+                        }
+                        SOp::Sleep(us) => stdx::thread::sleep(Duration::from_micros(us)),
+                    }
+                }
+                drop(w);
+                sched::log(&format!("dropped {}", i));
+            });
+        }
+        let quiet = sched::settle(60_000_000_000);
+        let s = sink.lock().unwrap().clone();
+        (s, quiet)
+    });
+    // ---- map the event log to labels of Lts.Seq
+    let mut labels: Vec<String> = vec![];
+    let mut pending: std::collections::HashMap<usize, String> = std::collections::HashMap::new();
+    let mut in_flush: std::collections::HashSet<usize> = std::collections::HashSet::new();
+    for e in &rep.events {
+        let w: Vec<&str> = e.what.split(' ').collect();
+        match w[0] {
+            "issue" => labels.push("I".into()),
+            "beginW" => {
+                pending.insert(e.tid, format!("W{}:{}", w[1], w[2]));
+            }
+            "beginF" => {
+                pending.insert(e.tid, format!("F{}", w[1]));
+            }
+            // write_all may call write several times: each locked call is one `write` label with
+            // the bytes of that call; we only know the total, so a multi-call write is reported
+            // as one label at its first lock (the BufWriter never returns a short count)
+            "lock" if w.get(1).map_or(false, |s| s.starts_with("sequential.rs")) => {
+                if let Some(l) = pending.remove(&e.tid) {
+                    if l.starts_with('F') {
+                        in_flush.insert(e.tid);
+                    }
+                    labels.push(l);
+                }
+            }
+            // the socket writes a flush performs are the flush itself (the LTS's `flush` label moves
+            // the whole buffer); what reached the socket is checked right after it (`C<n>`)
+            "sockwrite" if in_flush.contains(&e.tid) => {}
+            "flushed" => {
+                in_flush.remove(&e.tid);
+                labels.push(format!("C{}", w[2]));
+            }
+            "sockwrite" => labels.push(format!("S{}", w[1])),
+            "dropped" => labels.push(format!("D{}", w[1])),
+            _ => {}
+        }
+    }
+    let progs_enc: Vec<String> = progs
+        .iter()
+        .map(|ops| {
+            ops.iter()
+                .map(|o| match o {
+                    SOp::W(b) => format!("w{}", hex(b)),
+                    SOp::F => "f".into(),
+                    SOp::Sleep(u) => format!("s{}", u),
+                })
+                .collect::<Vec<_>>()
+                .join(".")
+        })
+        .collect();
+    format!(
+        "seq id={} seed={} progs={} | labels={} sock={} quiet={} aborted={}",
+        id,
+        cfg.seed,
+        progs_enc.join("|"),
+        labels.join(","),
+        hex(&sock),
+        if quiet { 1 } else { 0 },
+        if rep.aborted { 1 } else { 0 }
+    )
 }
